@@ -215,6 +215,9 @@ func runCLITargets(c *Ctx, run *ev.Run, prop string, cs cliTargetsCase) {
 	for _, d := range cs.DefHdr {
 		args = append(args, "-header", d.Name+": "+d.Value)
 	}
+	if cs.Seed%3 == 0 { // headers for a proxy's CONNECT request are not request headers of the targets
+		args = append(args, "-proxy-header", "X-Proxy-Token: secret", "-proxy-header", "x-Def: from-proxy-header")
+	}
 	if len(cs.DefBody) > 0 {
 		bf := filepath.Join(dir, "default-body.bin")
 		_ = os.WriteFile(bf, cs.DefBody, 0o644)
